@@ -94,14 +94,37 @@ func doMatchMatches(expression *grammar.MatchExpression, value reflect.Value) (b
 	}
 	if !ok || re == nil {
 		var err error
+		// Not cached here: the syntax tree is shared by concurrent Evaluate
+		// calls. Valid patterns were compiled by precompileRegexps.
 		re, err = regexp.Compile(expression.Value.Raw)
 		if err != nil {
 			return false, fmt.Errorf("Failed to compile regular expression %q: %v", expression.Value.Raw, err)
 		}
-		expression.Value.Converted = re
 	}
 
 	return re.Match(value.Convert(byteSliceTyp).Interface().([]byte)), nil
+}
+
+// precompileRegexps compiles the pattern of every matches / not matches node
+// once, when the evaluator is created, so that Evaluate never writes to the
+// syntax tree. Patterns that do not compile are left alone and reported by
+// Evaluate as before.
+func precompileRegexps(ast grammar.Expression) {
+	switch node := ast.(type) {
+	case *grammar.UnaryExpression:
+		precompileRegexps(node.Operand)
+	case *grammar.BinaryExpression:
+		precompileRegexps(node.Left)
+		precompileRegexps(node.Right)
+	case *grammar.CollectionExpression:
+		precompileRegexps(node.Inner)
+	case *grammar.MatchExpression:
+		if (node.Operator == grammar.MatchMatches || node.Operator == grammar.MatchNotMatches) && node.Value != nil {
+			if re, err := regexp.Compile(node.Value.Raw); err == nil {
+				node.Value.Converted = re
+			}
+		}
+	}
 }
 
 func doMatchEqual(expression *grammar.MatchExpression, value reflect.Value) (bool, error) {
